@@ -1,9 +1,11 @@
 from pyvc.tasks_engine import TasksEngine
 ID = "C18"
 LEVEL = "proof"
-CONTRACT_MODULES = ["contracts.sorting", "contracts.refcount", "contracts.tasks", "contracts.tasks_proto"]
+CONTRACT_MODULES = ["contracts.sorting", "contracts.refcount", "contracts.tasks", "contracts.tasks_proto", "contracts.tasks_knob"]
 FUNCTIONS = ["Manager.run_tasks", "Manager.set_value", "ExprTask.run", "ExprTask.__init__",
-             "Manager.find_taskids", "Manager.find_tasks", "Manager.register", "Manager.unregister"]
+             "Manager.find_taskids", "Manager.find_tasks", "Manager.register", "Manager.unregister",
+             # a knob whose store raises must not have recorded the new source value yet: repeating the assignment then applies the same change
+             "LinearKnob.run"]
 # the only expression nodes with an exception handler of their own: it may catch the node's OWN ZeroDivisionError only (C04)
 BORROW = [('C04', ['TruedivExpr._get_value', 'FloordivExpr._get_value', 'ModExpr._get_value'])]
 RAC = "rac/c18.py"
@@ -33,7 +35,9 @@ BOUNDED = ["'repeating the assignment re-establishes every dependant' is checked
 EXPLANATION = ("run_tasks: on an exception from the k-th task the exception propagates, the run trace is exactly "
                "tasks[0..k], tasks and indices are not in the frame; ExprTask.run: evaluate then one store, a raise in "
                "either leaves the heap as before; set_value: the definition step is complete and IdxWF holds before "
-               "the first store, on a failure either nothing was stored or exactly a prefix of the schedule ran")
+               "the first store, on a failure either nothing was stored or exactly a prefix of the schedule ran; LinearKnob.run (the one task kind "
+               "that ADDS to its targets): when a read or store raises at its k-th target the data are those after the first k stores and exactly the "
+               "first k per-target records hold the new source value, so that running it again adds nothing to them and the full change to the others")
 LEVEL_TEXT = ("Exceptional postconditions discharged by z3 for every manager state, every schedule and every failing "
               "position; a run that leaves any obligation open records level 'other'.")
 LEVEL_NOTE = "Trusted: virtual-callee contracts on user containers and task actions, library models, SMT solvers."
